@@ -212,7 +212,9 @@ Proof.
   - intros x X; simpl in *. apply mem_rm_inv in X. apply D; tauto.
 Qed.
 
-Lemma DIc_rmds : forall d c f, DIc c f -> mem d (loc c) = false -> DIc (up_certs (rm d) (up_tags (rm d) (up_ds (rm d) c))) f.
+Definition rmds (d : N) (c : db) : db := up_xf (rm d) (up_certs (rm d) (up_tags (rm d) (up_ds (rm d) c))).
+
+Lemma DIc_rmds : forall d c f, DIc c f -> mem d (loc c) = false -> DIc (rmds d c) f.
 Proof.
   intros d c f (A & B & D) L. split; [|split].
   - exact A.
@@ -358,4 +360,269 @@ Proof.
         -- left; reflexivity.
         -- right. split; [reflexivity|]. split; [|exact Y2]. intro Z0. apply Y1. rewrite <- K3 in Z0. rewrite (FA Z0). reflexivity.
       * inversion E; subst. right; left. split; [reflexivity|]. simpl. congruence.
+Qed.
+
+(* ---------------------------------------------------------------------------------------------------------- *)
+(* the registry transaction of pruneDatasets at top level *)
+Definition purge_tail (d : N) : act := ev (guard (fun s => negb (mem d (loc (cur s))))) ;; remove_ds d.
+Definition purge_body (d : N) : act := do_trash shipped d ;; purge_tail d.
+
+Lemma purge_unfold : forall d, do_purge shipped d =
+  (ev (guard (has_ds d)) ;; with_ds shipped (with_reg false true (purge_body d)) ;; do_empty_trash shipped).
+Proof. reflexivity. Qed.
+
+Lemma unstore_unfold : forall d, do_unstore shipped d =
+  (ev (guard (has_ds d)) ;; with_ds shipped (with_reg false true (do_trash shipped d)) ;; do_empty_trash shipped).
+Proof. reflexivity. Qed.
+
+Lemma purge_tail_spec : forall d a a' r, purge_tail d a = (a', r) ->
+  fs a' = fs a /\ fmono a a' /\
+  ((r <> Normal /\ cur a' = cur a) \/ (r = Normal /\ mem d (loc (cur a)) = false /\ cur a' = rmds d (cur a))).
+Proof.
+  intros d a a' r H. unfold purge_tail, bind, ev, guard, remove_ds, upd in H. tks a H. destruct b.
+  - inversion H; subst; simpl. repeat split; auto. { intro Z; destruct (TF eq_refl); contradiction. } left; split; [discriminate | reflexivity].
+  - simpl in H. destruct (mem d (loc (cur a))) eqn:L; simpl in H; inversion H; subst; simpl.
+    + repeat split; auto. { intro Z; apply TN; exact Z. } left; split; [discriminate | reflexivity].
+    + repeat split; auto. { intro Z; apply TN; exact Z. }
+Qed.
+
+Lemma WB_purge_body' : forall d, WB (purge_body d).
+Proof. intro d. unfold purge_body, purge_tail. apply WB_bind; [apply WB_do_trash | wb]. Qed.
+
+Lemma RMV_PF : forall Stp m, RMV Stp m -> PF m.
+Proof. intros Stp m H s s' r E. destruct (H _ _ _ E) as (A & B & _). repeat split; strue. Qed.
+
+Lemma PF_purge_reg : forall d, PF (with_reg false true (purge_body d)).
+Proof.
+  intro d. apply (RMV_PF (By d)). apply (RMV_with_reg _ (By_trans d) (By_cf d) (By_rb d)); [|apply WB_purge_body'].
+  unfold purge_body, purge_tail. apply (RMV_bind _ (By_trans d)); [apply BY_do_trash|].
+  apply (RMV_bind _ (By_trans d)); [apply (RMV_ev _ (By_trans d) (By_cf d)), (RMV_guard _ (By_refl d)) | apply BY_remove_ds].
+Qed.
+
+Lemma PF_unstore_reg : forall d, PF (with_reg false true (do_trash shipped d)).
+Proof.
+  intro d. apply (RMV_PF (By d)). apply (RMV_with_reg _ (By_trans d) (By_cf d) (By_rb d)); [apply BY_do_trash | apply WB_do_trash].
+Qed.
+
+Lemma P1_purge : forall d s s' r, sql s = [] -> DI s ->
+  with_ds shipped (with_reg false true (purge_body d)) s = (s', r) ->
+  sql s' = [] /\ fmono s s' /\
+  ((r <> Normal /\ cur s' = cur s /\ fs s' = fs s) \/
+   (r = Normal /\ DI s' /\ mem d (ds (cur s')) = false) \/
+   (r = Normal /\ fired s s')).
+Proof.
+  intros d s s' r Q HDI H.
+  assert (FM : fmono s s').
+  { revert H. generalize s s' r. change (FMo (with_ds shipped (with_reg false true (purge_body d)))).
+    apply FMo_with_ds, FMo_with_reg. unfold purge_body, purge_tail. apply FMo_bind; [apply FMo_do_trash | fmo]. }
+  apply with_ds_plain in H; [|apply PF_purge_reg]. destruct H as (s2 & E & C2 & F2 & U2 & S2 & _).
+  rewrite S2. unfold DI, fired in *. rewrite C2, F2, U2.
+  set (a := set_ptr ([] :: ptr s) s) in *.
+  assert (KA : cur a = cur s /\ sql a = [] /\ fuse a = fuse s /\ fs a = fs s) by (repeat split; auto).
+  destruct KA as (K1 & K2 & K3 & K4). clearbody a.
+  apply with_reg_top in E; [|exact K2 | apply WB_purge_body'].
+  destruct E as (Q3 & [(N1 & C1 & F1)|(x & s3 & r3 & FX & E3 & F3 & K)]).
+  { split; [exact Q3|]. split; [exact FM|]. left. repeat split; auto; congruence. }
+  split; [exact Q3|]. split; [exact FM|].
+  unfold purge_body, bind in E3.
+  destruct (do_trash shipped d (set_sql [FReal (cur a)] (set_fuse x a))) as [s4 r4] eqn:E4.
+  destruct (TR d (set_sql [FReal (cur a)] (set_fuse x a)) s4 r4 (cur a) eq_refl E4) as (G1 & G2 & G3 & G4). simpl in G1, G2, G4. unfold fired in G4. simpl in G4.
+  assert (FS3 : fs s3 = fs s).
+  { destruct r4; [apply purge_tail_spec in E3; destruct E3 as (P1 & _); congruence | inversion E3; subst; congruence]. }
+  destruct K as [(N1 & C1)|(R3 & R1 & C1 & M1)].
+  { left. repeat split; auto; congruence. }
+  subst r3 r. destruct r4; [|inversion E3].
+  apply purge_tail_spec in E3. destruct E3 as (P1 & P2 & [(X & _)|(_ & L4 & C3)]); [exfalso; apply X; reflexivity|].
+  destruct G4 as [C4|[(_ & C4)|(C4 & [X|(_ & Y1 & Y2)])]]; try discriminate X.
+  - right; left. split; [reflexivity|]. rewrite C1, C3, C4, F3, FS3. simpl. rewrite K1. rewrite C4 in L4; simpl in L4; rewrite K1 in L4.
+    split; [apply DIc_rmds; assumption | simpl; apply mem_rm_same].
+  - right; left. split; [reflexivity|]. rewrite C1, C3, F3, FS3. rewrite C4 in L4 |- *. rewrite K1 in L4 |- *.
+    split; [apply DIc_rmds; [apply DIc_trashed; assumption | exact L4] | simpl; apply mem_rm_same].
+  - right; right. split; [reflexivity|]. split.
+    + intro Z. apply Y1. rewrite <- K3 in Z. apply FX. exact Z.
+    + apply M1. apply P2. exact Y2.
+Qed.
+
+Lemma P1_unstore : forall d s s' r, sql s = [] -> DI s ->
+  with_ds shipped (with_reg false true (do_trash shipped d)) s = (s', r) ->
+  sql s' = [] /\ fmono s s' /\
+  ((r <> Normal /\ cur s' = cur s /\ fs s' = fs s) \/ (r = Normal /\ DI s') \/ (r = Normal /\ fired s s')).
+Proof.
+  intros d s s' r Q HDI H.
+  assert (FM : fmono s s').
+  { revert H. generalize s s' r. change (FMo (with_ds shipped (with_reg false true (do_trash shipped d)))).
+    apply FMo_with_ds, FMo_with_reg, FMo_do_trash. }
+  apply with_ds_plain in H; [|apply PF_unstore_reg]. destruct H as (s2 & E & C2 & F2 & U2 & S2 & _).
+  rewrite S2. unfold DI, fired in *. rewrite C2, F2, U2.
+  set (a := set_ptr ([] :: ptr s) s) in *.
+  assert (KA : cur a = cur s /\ sql a = [] /\ fuse a = fuse s /\ fs a = fs s) by (repeat split; auto).
+  destruct KA as (K1 & K2 & K3 & K4). clearbody a.
+  apply with_reg_top in E; [|exact K2 | apply WB_do_trash].
+  destruct E as (Q3 & [(N1 & C1 & F1)|(x & s3 & r3 & FX & E3 & F3 & K)]).
+  { split; [exact Q3|]. split; [exact FM|]. left. repeat split; auto; congruence. }
+  split; [exact Q3|]. split; [exact FM|].
+  destruct (TR d (set_sql [FReal (cur a)] (set_fuse x a)) s3 r3 (cur a) eq_refl E3) as (G1 & G2 & G3 & G4). simpl in G1, G2, G4. unfold fired in G4. simpl in G4.
+  destruct K as [(N1 & C1)|(R3 & R1 & C1 & M1)].
+  { left. repeat split; auto; congruence. }
+  subst r3 r.
+  destruct G4 as [C4|[(_ & C4)|(C4 & [X|(_ & Y1 & Y2)])]]; try discriminate X.
+  - right; left. split; [reflexivity|]. rewrite C1, C4, F3, G1, K1, K4. exact HDI.
+  - right; left. split; [reflexivity|]. rewrite C1, C4, F3, G1, K1, K4. apply DIc_trashed; exact HDI.
+  - right; right. split; [reflexivity|]. split.
+    + intro Z. apply Y1. rewrite <- K3 in Z. apply FX. exact Z.
+    + apply M1. exact Y2.
+Qed.
+
+(* ---------------------------------------------------------------------------------------------------------- *)
+(* the statements.  honest s s' r: the removal raised, or no fault fired at all -- i.e. NOT "a fault fired and the call
+   nevertheless reported success" (the swallowed-error findings) *)
+Definition honest (s s' : st) (r : outcome) : Prop := ~ (r = Normal /\ fired s s').
+
+Lemma has_ds_prefix : forall d (m : act) s s' r, (ev (guard (has_ds d)) ;; m) s = (s', r) ->
+  (r <> Normal /\ cur s' = cur s /\ fs s' = fs s /\ sql s' = sql s) \/
+  exists x, (fuse s = None -> x = None) /\ m (set_fuse x s) = (s', r).
+Proof.
+  intros d m s s' r H. unfold bind, ev, guard in H. tks s H. destruct b.
+  - inversion H; subst; simpl. left. repeat split; auto. discriminate.
+  - simpl in H. destruct (has_ds d (set_fuse x s)).
+    + right. exists x. split; [intro Z; apply TN; exact Z | exact H].
+    + inversion H; subst; simpl. left. repeat split; auto. discriminate.
+Qed.
+
+Lemma purge_DI_p : forall d s s' r, sql s = [] -> DI s -> exec_op shipped (Purge d) s = (s', r) -> honest s s' r ->
+  DI s' /\ sql s' = [] /\ ((cur s' = cur s /\ fs s' = fs s) \/ mem d (ds (cur s')) = false).
+Proof.
+  intros d s s' r Q HDI H HON. simpl in H. rewrite purge_unfold in H.
+  apply has_ds_prefix in H. destruct H as [(N1 & C1 & F1 & S1)|(x & FX & H)].
+  { split; [unfold DI; rewrite C1, F1; exact HDI|]. split; [congruence | left; auto]. }
+  unfold bind in H.
+  destruct (with_ds shipped (with_reg false true (purge_body d)) (set_fuse x s)) as [s1 r1] eqn:E1.
+  apply P1_purge in E1; [|exact Q | exact HDI]. destruct E1 as (Q1 & M1 & K). simpl in M1.
+  assert (M0 : fmono s s1) by (intro Z; apply M1; simpl; apply FX; exact Z).
+  destruct K as [(N1 & C1 & F1)|[(R1 & D1 & X1)|(R1 & Y1 & Y2)]].
+  - destruct r1; [exfalso; apply N1; reflexivity|]. inversion H; subst. simpl in *.
+    split; [unfold DI; rewrite C1, F1; exact HDI|]. split; [exact Q1 | left; auto].
+  - subst r1. destruct (KEEP_do_empty_trash _ _ _ H) as (_ & _ & KP). unfold Keep, T3 in KP. inversion KP as [[KD KT KC]].
+    apply ET_DI in H; [|exact Q1 | exact D1]. destruct H as (Q2 & M2 & [D2|(R2 & Z1 & Z2)]).
+    + split; [exact D2|]. split; [exact Q2|]. right. rewrite KD. exact X1.
+    + exfalso. apply HON. split; [exact R2|]. split; [|exact Z2]. intro Z. apply Z1. apply M0. exact Z.
+  - subst r1. simpl in Y1. destruct (NF_do_empty_trash s1 Y2) as (s3 & E3 & F3). rewrite E3 in H. inversion H; subst.
+    exfalso. apply HON. split; [reflexivity|]. split; [|exact F3]. intro Z. apply Y1. apply FX. exact Z.
+Qed.
+
+Lemma unstore_DI_p : forall d s s' r, sql s = [] -> DI s -> exec_op shipped (Unstore d) s = (s', r) -> honest s s' r ->
+  DI s' /\ sql s' = [].
+Proof.
+  intros d s s' r Q HDI H HON. simpl in H. rewrite unstore_unfold in H.
+  apply has_ds_prefix in H. destruct H as [(N1 & C1 & F1 & S1)|(x & FX & H)].
+  { split; [unfold DI; rewrite C1, F1; exact HDI | congruence]. }
+  unfold bind in H.
+  destruct (with_ds shipped (with_reg false true (do_trash shipped d)) (set_fuse x s)) as [s1 r1] eqn:E1.
+  apply P1_unstore in E1; [|exact Q | exact HDI]. destruct E1 as (Q1 & M1 & K). simpl in M1.
+  assert (M0 : fmono s s1) by (intro Z; apply M1; simpl; apply FX; exact Z).
+  destruct K as [(N1 & C1 & F1)|[(R1 & D1)|(R1 & Y1 & Y2)]].
+  - destruct r1; [exfalso; apply N1; reflexivity|]. inversion H; subst. simpl in *.
+    split; [unfold DI; rewrite C1, F1; exact HDI | exact Q1].
+  - subst r1. apply ET_DI in H; [|exact Q1 | exact D1]. destruct H as (Q2 & M2 & [D2|(R2 & Z1 & Z2)]).
+    + split; [exact D2 | exact Q2].
+    + exfalso. apply HON. split; [exact R2|]. split; [|exact Z2]. intro Z. apply Z1. apply M0. exact Z.
+  - subst r1. simpl in Y1. destruct (NF_do_empty_trash s1 Y2) as (s3 & E3 & F3). rewrite E3 in H. inversion H; subst.
+    exfalso. apply HON. split; [reflexivity|]. split; [|exact F3]. intro Z. apply Y1. apply FX. exact Z.
+Qed.
+
+Lemma empty_trash_DI_p : forall s s' r, sql s = [] -> DI s -> exec_op shipped EmptyTrash s = (s', r) -> honest s s' r ->
+  DI s' /\ sql s' = [].
+Proof.
+  intros s s' r Q HDI H HON. simpl in H. apply ET_DI in H; [|exact Q | exact HDI].
+  destruct H as (Q2 & _ & [D2|Z]); [auto | exfalso; apply HON; exact Z].
+Qed.
+
+(* ---------------------------------------------------------------------------------------------------------- *)
+(* the next (fault-free) emptyTrash: afterwards no trash row has a record, so under DI every artifact is located *)
+Lemma filter_nil_all : forall (p : N -> bool) l, filter p l = [] -> forall x, In x l -> p x = false.
+Proof.
+  intros p l; induction l as [|k l IH]; intros H x I; [destruct I|]. simpl in H. destruct (p k) eqn:P; [discriminate H|].
+  destruct I as [I|I]; [subst; exact P | apply IH; assumption].
+Qed.
+
+Lemma ET_nofault : forall s, fuse s = None -> sql s = [] ->
+  exists s', do_empty_trash shipped s = (s', Normal) /\ fuse s' = None /\
+             (forall x, mem x (trash (cur s')) = true -> mem x (recs (cur s')) = false).
+Proof.
+  intros s F Q. destruct (NF_do_empty_trash s F) as (s' & E & F'). exists s'. split; [exact E|]. split; [exact F'|].
+  rewrite do_empty_trash_unfold in E. fold et_inner in E. apply with_ds_plain in E; [|apply PF_et_inner].
+  destruct E as (s2 & E & C2 & _). rewrite C2. clear C2 F' s'.
+  set (a := set_ptr ([] :: ptr s) s) in *.
+  assert (KA : cur a = cur s /\ sql a = [] /\ fuse a = None) by (repeat split; auto). destruct KA as (K1 & K2 & K3). clearbody a.
+  unfold et_inner, ev in E. rewrite (tick_none a K3) in E. unfold bind in E.
+  destruct (del_files (trash_targets a) a) as [s1 r1] eqn:D.
+  destruct (del_files_frame _ _ _ _ D) as (_ & _ & A3 & A4 & _).
+  destruct r1; [|discriminate E].
+  destruct (trash_targets a) as [|t0 tg0] eqn:TG.
+  - inversion E; subst. rewrite A3. intros x X. unfold trash_targets in TG.
+    apply (filter_nil_all _ _ TG x). apply mem_In. exact X.
+  - unfold et_rows in E. apply with_reg_top in E; [|congruence | apply WB_et_body].
+    destruct E as (_ & [(N1 & _)|(x1 & s3 & r3 & _ & E3 & _ & K)]); [exfalso; apply N1; reflexivity|].
+    destruct K as [(N1 & _)|(R3 & _ & C1 & _)]; [exfalso; apply N1; reflexivity|]. subst r3.
+    unfold et_body in E3. apply two_ev_cur in E3. destruct E3 as (_ & _ & _ & _ & G5). simpl in G5.
+    destruct G5 as [(X & _)|[(X & _)|(_ & G6)]]; try discriminate X.
+    rewrite C1, G6, A3. simpl. intros x X. unfold drop in *. rewrite mem_filter in X. apply andb_true_iff in X. destruct X as (X1 & X2).
+    rewrite mem_filter. destruct (mem x (recs (cur a))) eqn:RR; [|reflexivity]. exfalso.
+    assert (I : In x (t0 :: tg0)) by (rewrite <- TG; unfold trash_targets; apply filter_In; split; [apply mem_In; exact X1 | exact RR]).
+    apply mem_In in I. rewrite I in X2. discriminate X2.
+Qed.
+
+Lemma after_empty_collects_p : forall s, sql s = [] -> DI s ->
+  DI (after_empty s) /\
+  forall x, fget x (fs (after_empty s)) <> None ->
+    mem x (loc (cur (after_empty s))) = true /\ mem x (ds (cur (after_empty s))) = true /\ mem x (recs (cur (after_empty s))) = true.
+Proof.
+  intros s Q HDI. unfold after_empty. simpl exec.
+  destruct (ET_nofault (set_fuse None s) eq_refl Q) as (s' & E & F' & NT). rewrite E. simpl fst.
+  apply ET_DI in E; [|exact Q | exact HDI]. destruct E as (_ & _ & [D2|(_ & Z & _)]); [|exfalso; apply Z; reflexivity].
+  split; [exact D2|]. destruct D2 as (A & B & D). intros x X. assert (R := A x X). destruct (B x R) as [L|T].
+  - repeat split; auto.
+  - rewrite (NT x T) in R. discriminate R.
+Qed.
+
+Lemma purge_leftovers_p : forall d s s' r, sql s = [] -> DI s -> exec_op shipped (Purge d) s = (s', r) -> honest s s' r ->
+  (forall x, fget x (fs (after_empty s')) <> None ->
+     mem x (loc (cur (after_empty s'))) = true /\ mem x (ds (cur (after_empty s'))) = true /\ mem x (recs (cur (after_empty s'))) = true) /\
+  ((cur s' = cur s /\ fs s' = fs s) \/ (mem d (ds (cur s')) = false /\ fget d (fs (after_empty s')) = None)).
+Proof.
+  intros d s s' r Q HDI H HON. destruct (purge_DI_p _ _ _ _ Q HDI H HON) as (D1 & Q1 & K).
+  destruct (after_empty_collects_p s' Q1 D1) as (D2 & COL). split; [exact COL|].
+  destruct K as [K|K]; [left; exact K | right]. split; [exact K|].
+  destruct (fget d (fs (after_empty s'))) eqn:G; [|reflexivity]. exfalso.
+  assert (G' : fget d (fs (after_empty s')) <> None) by (rewrite G; discriminate).
+  destruct (COL d G') as (_ & X & _).
+  unfold after_empty in X. destruct (exec shipped (POp EmptyTrash) (set_fuse None s')) as [s2 r2] eqn:E. simpl in E, X.
+  destruct (KEEP_do_empty_trash _ _ _ E) as (_ & _ & KP). unfold Keep, T3 in KP. inversion KP as [[KD KT KC]]. simpl in KD.
+  rewrite KD in X. congruence.
+Qed.
+
+Lemma unstore_leftovers_p : forall d s s' r, sql s = [] -> DI s -> exec_op shipped (Unstore d) s = (s', r) -> honest s s' r ->
+  forall x, fget x (fs (after_empty s')) <> None ->
+     mem x (loc (cur (after_empty s'))) = true /\ mem x (ds (cur (after_empty s'))) = true /\ mem x (recs (cur (after_empty s'))) = true.
+Proof.
+  intros d s s' r Q HDI H HON. destruct (unstore_DI_p _ _ _ _ Q HDI H HON) as (D1 & Q1).
+  destruct (after_empty_collects_p s' Q1 D1) as (_ & COL). exact COL.
+Qed.
+
+(* the guard is exactly what the two swallowed-error refutations violate *)
+Lemma swallowed_not_honest_p :
+  (let '(s', r) := exec_op shipped (Purge 1) (with_fuse 4 s_one) in ~ honest (with_fuse 4 s_one) s' r) /\
+  (let '(s', r) := exec_op shipped (Purge 1) (with_fuse 8 s_one) in ~ honest (with_fuse 8 s_one) s' r).
+Proof. split; vm_compute; intro H; apply H; repeat split; discriminate. Qed.
+
+(* non-vacuity *)
+Lemma DI_init : forall e, DI (init e).
+Proof. intro e. split; [|split]; intros x X; simpl in *; congruence. Qed.
+
+Lemma DI_s_one : DI s_one /\ sql s_one = [].
+Proof.
+  split; [|reflexivity]. split; [|split]; intros x X; vm_compute in X |- *.
+  - destruct x as [|[p|p|]]; try reflexivity; exfalso; apply X; reflexivity.
+  - left; exact X.
+  - exact X.
 Qed.
